@@ -622,6 +622,168 @@ def check_init(dic, cfg):
     return fails
 
 
+# ---------------------------------------------------------------------- derived starting values, recomputed independently
+def empirical_starts(seqs):
+    """independent of torchtree: from the sequences BY NAME -> (frequencies ACGT, kappa, six relative rates AC AG AT CG CT GT).
+    Substitution counts are over ALL unordered pairs of sequences, site by site, unambiguous nucleotides only; kappa is the
+    transition/transversion count ratio converted with the frequencies; the relative rates carry one pseudo-count per type
+    and sum to one."""
+    names = sorted(seqs)                       # any order: the counts are symmetric
+    n = {c: sum(seqs[k].count(c) for k in names) for c in "ACGT"}
+    tot = sum(n.values())
+    f = {c: n[c] / tot for c in "ACGT"}
+    pairs = {p: 0 for p in ("AC", "AG", "AT", "CG", "CT", "GT")}
+    for i in range(len(names)):
+        for j in range(i + 1, len(names)):
+            for a, b in zip(seqs[names[i]], seqs[names[j]]):
+                if a != b and a in "ACGT" and b in "ACGT":
+                    pairs["".join(sorted((a, b)))] += 1
+    ts = pairs["AG"] + pairs["CT"]
+    tv = pairs["AC"] + pairs["AT"] + pairs["CG"] + pairs["GT"]
+    kappa = None if tv == 0 else (ts / tv) * (f["A"] + f["G"]) * (f["C"] + f["T"]) / (f["A"] * f["G"] + f["C"] * f["T"])
+    r = [pairs[p] + 1 for p in ("AC", "AG", "AT", "CG", "CT", "GT")]
+    return [f[c] for c in "ACGT"], kappa, [x / sum(r) for x in r], pairs
+
+
+def skyride_theta_mle(tip_heights, internal_heights):
+    """independent per-interval maximum-likelihood sizes of the skyride (one size per inter-coalescent interval, from the
+    present backwards): sum over the sub-intervals of C(k,2) * duration"""
+    events = sorted([(h, +1) for h in tip_heights] + [(h, -1) for h in internal_heights], key=lambda e: (e[0], -e[1]))
+    out, k, last, acc = [], 0, events[0][0], 0.0
+    for h, d in events:
+        acc += k * (k - 1) / 2.0 * (h - last)
+        last = h
+        k += d
+        if d == -1:
+            out.append(acc)
+            acc = 0.0
+    return out
+
+
+def newick_clades(newick, tip_height=None):
+    """independent: {frozenset(leaf names): (branch length above the clade, height of the clade's node)}; heights only when
+    tip_height(name) is given (height of a node = height of a child + the child's branch length)"""
+    out = {}
+
+    def walk(n):
+        name, length, children = n
+        if not children:
+            names, h = frozenset([name]), (tip_height(name) if tip_height else None)
+        else:
+            sub = [walk(c) for c in children]
+            names = frozenset().union(*[x[0] for x in sub])
+            h = max(x[1] + x[2] for x in sub) if tip_height else None
+        out[names] = (length, h)
+        return names, h, length
+
+    walk(parse_newick(newick))
+    return out
+
+
+def model_clades(t):
+    """{frozenset(leaf names): node index} of a loaded tree model"""
+    out = {}
+    for node in t.tree.postorder_node_iter():
+        out[frozenset(x.taxon.label for x in node.leaf_iter())] = node.index
+    return out
+
+
+def derived_start_violations(C, cfg, emitted, dic):
+    """checklist 29: every option that REQUESTS a data-derived starting value - the value is recomputed here from the same
+    files (all sequence pairs, by taxon name, by clade) and compared with the emitted JSON and the loaded object"""
+    fails = []
+    extra = cfg.get("extra") or []
+    opts = dict(zip(extra[::2], extra[1::2])) if len(extra) % 2 == 0 else {}
+    init = cfg.get("init")
+
+    def val(i):
+        o = dic.get(i)
+        return None if o is None or not hasattr(o, "tensor") else o.tensor.detach().reshape(-1).tolist()
+
+    def vec_close(a, b, tol=2e-5):
+        return a is not None and len(a) == len(b) and all(close(x, y, tol) for x, y in zip(a, b))
+
+    def emitted_plain(i):
+        els = find_all(emitted, lambda d: d.get("id") == i and str(d.get("type", "")).endswith("Parameter")
+                       and isinstance(d.get("tensor"), list) and "full" not in d and "transform" not in d)
+        return els[0]["tensor"] if els else None
+
+    if opts.get("--frequencies") == "empirical" and cfg.get("_data") != "ymd" and cfg.get("model") in ("K80", "HKY", "SYM", "GTR", "SRD06"):
+        SEQS = C.SEQS_RICH if cfg.get("_data") == "rich" else C.SEQS
+        f, kappa, rates, pairs = empirical_starts(SEQS)
+        stems = ["substmodel.12", "substmodel.3"] if cfg["model"] == "SRD06" else ["substmodel"]
+        for stem in stems:
+            for what, pid, want in (("frequencies", stem + ".frequencies", f),
+                                    ("kappa", stem + ".kappa", None if kappa is None else [kappa]),
+                                    ("rates", stem + ".rates", rates)):
+                if want is None or (what == "kappa") != (cfg["model"] in ("K80", "HKY", "SRD06")) and what != "frequencies":
+                    continue
+                for where, got in (("loaded model", val(pid)), ("emitted file", emitted_plain(pid))):
+                    if got is None:
+                        if where == "loaded model":
+                            fails.append((f"cli:derived-start:empirical:{what}:missing", f"-f empirical -m {cfg['model']}: no parameter {pid} in the loaded model"))
+                        continue
+                    if not vec_close(got, want):
+                        fails.append((f"cli:derived-start:empirical:{what}",
+                                      f"-f empirical -m {cfg['model']}: {pid} starts at {[round(x, 6) for x in got]} in the {where}; "
+                                      f"recomputed from the alignment (all {len(SEQS) * (len(SEQS) - 1) // 2} sequence pairs, "
+                                      f"substitution counts {pairs}): {[round(x, 6) for x in want]}"))
+                        break
+        if cfg["model"] == "SRD06":
+            parts = {"12": {k: "".join(c for i, c in enumerate(v) if i % 3 != 2) for k, v in SEQS.items()},
+                     "3": {k: v[2::3] for k, v in SEQS.items()}}
+            own = {t: empirical_starts(p) for t, p in parts.items()}
+            EXTRA_NOTES.add("SRD06 -f empirical: both codon partitions start at the frequencies / kappa of the WHOLE alignment "
+                            f"(kappa {kappa:.4f}); their own positions give kappa "
+                            + ", ".join(f"{t}: {own[t][1] if own[t][1] is None else round(own[t][1], 4)}" for t in own)
+                            + " (`-f` is documented only as 'frequencies': noted, not counted)")
+    t = dic.get("tree")
+    if t is None or cfg.get("_data") == "ymd":
+        return fails
+    # ---- branch lengths of the input tree (unrooted), BY TAXON NAME and by clade
+    if init in ("brlens_init_tree", "keep") and not cfg.get("clock") and hasattr(t, "tree"):
+        opt = "--brlens_init tree" if init == "brlens_init_tree" else "--keep"
+        want = newick_clades(C.UNROOTED)
+        bl = t.branch_lengths().detach().reshape(-1).tolist()
+        names = list(t.taxa)
+        got_leaf = {nm: bl[i] for i, nm in enumerate(names)}
+        want_leaf = {nm: max(want[frozenset([nm])][0], 1e-7) for nm in names if frozenset([nm]) in want}
+        if set(got_leaf) != set(want_leaf) or not all(close(got_leaf[k], want_leaf[k], 1e-5) for k in want_leaf):
+            fails.append((f"cli:derived-start:{init}:leaf-branches",
+                          f"{opt}: the input tree has leaf branches {want_leaf} but the model starts at "
+                          f"{ {k: round(v, 6) for k, v in got_leaf.items()} }"))
+        else:
+            # internal branches: the two branches at the (arbitrary) root are one branch of the unrooted tree
+            alln = frozenset(names)
+            w_int = sorted(v[0] for k, v in want.items() if 1 < len(k) < len(alln) - 1)
+            g_int = sorted(bl[len(names):])
+            if len(w_int) != len(g_int) or not all(close(a, b, 1e-5) for a, b in zip(g_int, w_int)):
+                fails.append((f"cli:derived-start:{init}:internal-branches",
+                              f"{opt}: the input tree has internal branches {w_int} but the model starts at {[round(x, 6) for x in g_int]}"))
+    # ---- node heights of the input tree, BY CLADE; tips BY NAME
+    if init in ("heights_init_tree", "keep", "coalescent_init_tree", "coalescent_init_constant") and cfg.get("clock") and hasattr(t, "tree"):
+        opt = {"keep": "--keep"}.get(init, "--heights_init tree")
+        newest = max(float(k.rsplit("_", 1)[1]) for k in C.SEQS)
+        want = newick_clades(C.ROOTED, lambda nm: newest - float(nm.rsplit("_", 1)[1]))
+        hs = t.node_heights.detach().reshape(-1).tolist()
+        got = {k: hs[i] for k, i in model_clades(t).items()}
+        bad = {",".join(sorted(k)): (round(got.get(k, float("nan")), 6), v[1]) for k, v in want.items()
+               if k not in got or not close(got[k], v[1], 1e-5)}
+        if bad:
+            fails.append((f"cli:derived-start:{init}:node-heights",
+                          f"{opt}: node heights by clade (model, input tree) differ: {dict(list(bad.items())[:4])}"))
+    # ---- skyride sizes from the input tree
+    if init == "coalescent_init_tree" and cfg.get("treeprior") == "skyride":
+        TIPS, INTERNAL = [4.0, 3.0, 1.5, 1.0, 0.0, 0.0], [1.0, 2.0, 3.5, 5.0, 6.0]
+        want = [max(x, 1e-6) for x in skyride_theta_mle(TIPS, INTERNAL)]
+        got = val("coalescent.theta")
+        if got is not None and not vec_close(got, want, 1e-5):
+            fails.append(("cli:derived-start:coalescent_init_tree:skyride",
+                          f"--coalescent_init tree: the per-interval maximum-likelihood sizes of the input tree are {want} but "
+                          f"coalescent.theta = {[round(x, 6) for x in got]}"))
+    return fails
+
+
 NO_EFFECT_OK = {("--warmup", "0"), ("--date_regex",), ("--frequencies", "equal")}
 
 
@@ -732,7 +894,7 @@ def check_extra(C, cfg, emitted, dic, data):
         if v == "equal":
             want = [0.25] * 4
         elif v == "empirical":
-            cnt = [sum(s_.count(c) for s_ in C.SEQS.values()) for c in "ACGT"]
+            cnt = [sum(s_.count(c) for s_ in (C.SEQS_RICH if cfg.get("_data") == "rich" else C.SEQS).values()) for c in "ACGT"]
             want = [c / sum(cnt) for c in cnt]
         else:
             want = [float(x) for x in v.split(",")]
@@ -788,6 +950,7 @@ def _run_config(C, cfg, data):
         with contextlib.redirect_stdout(io.StringIO()), contextlib.redirect_stderr(io.StringIO()):
             fails = evaluate(dic, cfg["cmd"], cfg, emitted, with_constraints, reload=lambda: C.dry_load(text)[0])
             fails += check_extra(C, cfg, emitted, dic, data)
+            fails += derived_start_violations(C, cfg, emitted, dic)
     except Exception as e:  # noqa: BLE001
         tb = traceback.extract_tb(e.__traceback__)[-1]
         fails = [(f"eval:harness:{type(e).__name__}:{tb.name}", f"evaluation raised {type(e).__name__}: {str(e)[:160]}")]
@@ -947,6 +1110,8 @@ def configs(ck):
         add(c, "single")
     for c in S.frequency_sweep():
         add(c, "frequencies")
+    for c in S.derived_starts():
+        add(c, "derived-starts")
     for c in S.pairwise(ck.rng):
         add(c, "pairwise")
     if ck.thorough():
